@@ -461,6 +461,8 @@ func genValueCase(r *rand.Rand, wide bool) *vcase {
 	ncli := r.Intn(4)
 	if r.Intn(3) == 0 {
 		ncli = 0
+	} else if r.Intn(20) == 0 {
+		ncli = 8 + r.Intn(6) // many occurrences
 	}
 	for k := 0; k < ncli; k++ {
 		t := tok()
